@@ -32,7 +32,7 @@ fn subjects() -> Vec<String> {
         v.extend(next.iter().cloned());
         layer = next;
     }
-    for s in ["A", "ab c", "x", "1", "12", "a1", "\u{e9}", "\u{1f600}", "\u{1f600}b", "e\u{301}", "a.b", "a|b", "(a)", "a\\b", "\\d", "[a]", "^a", "a$", "a*", "a b", "aaaa", "abcabc", "\u{416}", "]", "]x", "x]", "a]", ".", "-", "^", "[", "\\", "a]b", "v-1", "v.1", "v]1", "vx1", "+", "9", "Abcdefghijklmnopqrstuvwxyzabcdefghijklmnopqrstuvwxyz", "\u{416}\u{438}\u{432}\u{430}\u{433}\u{43e}", "ab12_"] {
+    for s in ["A", "ab c", "x", "1", "12", "a1", "\u{e9}", "\u{1f600}", "\u{1f600}b", "e\u{301}", "a.b", "a|b", "(a)", "a\\b", "\\d", "[a]", "^a", "a$", "a*", "a b", "aaaa", "abcabc", "\u{416}", "]", "]x", "x]", "a]", ".", "-", "^", "[", "\\", "a]b", "v-1", "v.1", "v]1", "vx1", "+", "9", "Abcdefghijklmnopqrstuvwxyzabcdefghijklmnopqrstuvwxyz", "\u{416}\u{438}\u{432}\u{430}\u{433}\u{43e}", "ab12_", "a$", "a$b", "15$", "15$ or more", "a\\", "a\\b$", "$", "^a", "a$$", "$a"] {
         v.push(s.to_string());
     }
     v
@@ -47,6 +47,8 @@ pub fn patterns() -> Vec<&'static str> {
         "[\\d.]", "[\\w\\].]", "[\\p{L}.]", "[^\\p{L}]", "\\]", "a\\]", "[a]\\]\\.", ".[\\]].", "(\\]|.)", "[\\].]+", "[^\\].]*x", "[a\\].b]{2}", "[\\]a]|[.b]", "[^.]", "[^.\\]]", "[.-9]", "[+-.]",
         // large Unicode classes under counted repetition
         "\\p{L}{1,40}", "[\\p{L}\\p{Nd}_]{3,40}", "\\p{Lu}\\p{Ll}{2,64}", "\\p{L}{20}", "(\\p{L}|\\p{N})*", "[a-z]{1,1000}", ".{1,255}", "\\w{1,100}", "(\\p{L}{1,8}){1,8}",
+        // anchors written by the user, escaped dollars and carets at the ends
+        "^a\\$", "^\\d+\\$", "^a\\\\$", "a\\$", "^a$", "^ab$", "^a\\$$", "\\^a$", "^\\^a", "^(a)$", "^a.*\\$", "^[a$]$", "a$b", "^a$|b", "(^a$)", "^$", "^", "$", "\\$", "^\\$",
         // invalid patterns: both functions must answer false
         "[a", "(", "*a", "a{2,1}", "(?P<", "\\", "a)",
         // escapes of other regex dialects that are not patterns here (back-references, octal)
